@@ -118,8 +118,12 @@ def build_script(seed, size=1.0, micro=False):
         par.op("fq2.mul", f2(), f2()); par.op("fq2.sqrt", f2()); par.op("fq2.inv", f2())
         par.op("fq6.mul", f6(), f6()); par.op("fq12.mul", f12(), f12()); par.op("fq12.inv", f12())
         par.op("fq12.frob", f12(), V.w(rng.randrange(12))); par.op("fq.pow", fe(), V.w(rng.getrandbits(64), rng.getrandbits(64)))
+    G1J, G2J = V.proj(1, g1[0], g1[1], 1), V.proj(2, g2[0], g2[1], (1, 0))
     for _ in range(n(8)):
         i, j = rng.randrange(4), rng.randrange(4)
+        # the generators themselves (the natural key of a lazily built fixed-base table)
+        par.op("g1.mul", G1J, V.RR(rng.getrandbits(255))); par.op("g2.mul", G2J, V.RR(rng.getrandbits(255)))
+        par.op("g1.amul", V.aff(1, g1), V.RR(rng.getrandbits(255))); par.op("g2.amul", V.aff(2, g2), V.RR(rng.getrandbits(64)))
         par.op("g1.add", J1[i], J1[j]); par.op("g2.add", J2[i], J2[j])
         par.op("g1.addm", J1[i], A1[j]); par.op("g2.dbl", J2[i]); par.op("g1.to_affine", J1[i]); par.op("g2.to_affine", J2[j])
         par.op("g1.mul", J1[i], V.RR(rng.getrandbits(255))); par.op("g2.amul", A2[j], V.RR(rng.getrandbits(128)))
@@ -143,6 +147,9 @@ def build_script(seed, size=1.0, micro=False):
         x = rng.choice(["sha256", "sha512", "shake128", "shake256"])
         par.op("expand", V.s(x), V.b(rb(rng, rng.randrange(0, 80))), V.b(rb(rng, 16)), V.n(rng.choice([32, 96, 128])))
         par.op("h2f", V.s("fq2"), V.s(x), V.b(rb(rng, 20)), V.b(b"tag"), V.n(2))
+        for x2 in ("sha256", "sha512", "shake128"):
+            par.op("h2f", V.s("fq"), V.s(x2), V.b(b"same message"), V.b(b"same tag"), V.n(2))
+            par.op("g1.hash", V.s(x2), V.b(b"same message"), V.b(b"same tag"))
         par.op("g1.hash", V.s(x), V.b(rb(rng, 12)), V.b(b"C20")); par.op("g2.encode", V.s(x), V.b(rb(rng, 12)), V.b(b"C20"))
         par.op("g1.map2", fe(), fe()); par.op("g2.map", f2()); par.op("g1.osswu", fe()); par.op("g2.osswu", f2())
         par.op("g1.clear_h", J1[i]); par.op("g2.clear_h", J2[i])
@@ -281,14 +288,14 @@ def judge_par(ctx, rec, res):
     return spec.judge(ctx, rec, res)
 
 
-def threaded_leg(res, wd, pre, par, build, threads, rounds, yseed, probes, env=None, wall=600, tag=""):
+def threaded_leg(res, wd, pre, par, build, threads, rounds, yseed, probes, env=None, wall=600, tag="", cold=False):
     script = "\n".join(pre + ["PAR"] + par) + "\n"
     sp = os.path.join(wd, "par-%s.txt" % tag)
     lp = os.path.join(wd, "par-%s.log" % tag)
     open(sp, "w").write(script)
     binary = H.build(build)
     status, rc, err = run_watched([binary, sp, lp, "--threads", str(threads), "--rounds", str(rounds), "--yield-seed", str(yseed),
-                                   "--probes", "1" if probes else "0"], env, wall, cwd=wd)
+                                   "--probes", "1" if probes else "0"] + (["--baseline-last"] if cold else []), env, wall, cwd=wd)
     text = open(lp).read() if os.path.exists(lp) else ""
     return status, rc, err, text, script
 
@@ -378,6 +385,13 @@ def main(tier, seed, procs):
                 res.inconclusive.append("threaded run exceeded its wall budget while making progress")
             elif rc != 0 or not check_threaded(res, text, script, pre, par, "rel-threads", judge_model=(k == 0)):
                 res.violations.append(dict(kind="abort", build="rel", id=None, line="threaded run", expected="clean exit", observed="rc=%s %s" % (rc, err[-500:]), script=script))
+        # cold start: the threads are the first users of the library in the process (lazily initialised tables / caches
+        # are then first touched concurrently); the sequential baseline runs afterwards
+        st, rc, err, text, script = threaded_leg(res, wd, pre, par, "rel", 16, 2, seed + 31, True, wall=900, tag="cold", cold=True)
+        if st == "hang":
+            res.violations.append(dict(kind="hang", build="rel", id=None, line="threaded run (cold)", expected="progress", observed="no CPU progress for 60 s", script=script))
+        elif st == "ok" and (rc != 0 or not check_threaded(res, text, script, pre, par, "rel-threads-cold", judge_model=True)):
+            res.violations.append(dict(kind="abort", build="rel", id=None, line="threaded run (cold)", expected="clean exit", observed="rc=%s %s" % (rc, err[-500:]), script=script))
         # overflow-checked build, threads
         st, rc, err, text, script = threaded_leg(res, wd, pre, par, "chk", 16, 2, seed + 77, True, wall=900, tag="chk")
         if st == "hang":
@@ -423,7 +437,8 @@ def main(tier, seed, procs):
         # ---- TSan
         for probes in (True, False):
             st, rc, err, text, script = threaded_leg(res, wd, pre, par, "tsan", 16, 2 if q else 6, seed + 5, probes,
-                                                     env={"TSAN_OPTIONS": "halt_on_error=0 report_signal_unsafe=0 exitcode=66"}, wall=1500, tag="tsan%d" % probes)
+                                                     env={"TSAN_OPTIONS": "halt_on_error=0 report_signal_unsafe=0 exitcode=66"}, wall=1500, tag="tsan%d" % probes,
+                                                     cold=not probes)
             nrep = sanitizer_reports(err, "tsan")
             res.info["tsan runs"] += 1
             res.info["tsan report blocks"] += nrep
